@@ -266,6 +266,11 @@ pub struct FrontendCtx<'a, R: FileManager> {
     /// module items whose resolution is under way: an import / re-export chain that comes back to
     /// one of them would never end
     resolving_items: Vec<(bool, ModuleItemAddress)>,
+    /// values (by address) and expressions (by node) whose type is being computed: needing the
+    /// type of one of them again in the meantime (`const a = b; const b = a;`,
+    /// `declare const x: { a: typeof x }`) would never end
+    typing_values: Vec<ModuleItemAddress>,
+    typing_exprs: Vec<(usize, bool)>,
 }
 
 #[derive(Debug)]
@@ -1139,6 +1144,8 @@ impl<'a, R: FileManager> FrontendCtx<'a, R> {
             recursive_generic_uuids: BTreeSet::new(),
             jsdoc_cache_by_file: BTreeMap::new(),
             resolving_items: vec![],
+            typing_values: vec![],
+            typing_exprs: vec![],
         }
     }
 
@@ -2286,6 +2293,21 @@ impl<'a, R: FileManager> FrontendCtx<'a, R> {
     }
 
     pub fn typeof_expr(&mut self, e: &Expr, as_const: bool, file: BffFileName) -> Res<Runtype> {
+        let key = (e as *const Expr as usize, as_const);
+        if self.typing_exprs.contains(&key) {
+            let anchor = Anchor {
+                f: file.clone(),
+                s: e.span(),
+            };
+            return self.error(&anchor, DiagnosticInfoMessage::CannotConvertExpr);
+        }
+        self.typing_exprs.push(key);
+        let res = self.typeof_expr_step(e, as_const, file);
+        self.typing_exprs.pop();
+        res
+    }
+
+    fn typeof_expr_step(&mut self, e: &Expr, as_const: bool, file: BffFileName) -> Res<Runtype> {
         let anchor = Anchor {
             f: file.clone(),
             s: e.span(),
@@ -2603,8 +2625,18 @@ impl<'a, R: FileManager> FrontendCtx<'a, R> {
         address: &ModuleItemAddress,
         anchor: &Anchor,
     ) -> Res<Runtype> {
-        let addressed_value = self.get_addressed_value(address, anchor)?;
-        self.extract_addressed_value(addressed_value, anchor)
+        if self.typing_values.contains(address) {
+            return self.error(
+                anchor,
+                DiagnosticInfoMessage::CannotNotResolveValue(address.clone()),
+            );
+        }
+        self.typing_values.push(address.clone());
+        let res = self
+            .get_addressed_value(address, anchor)
+            .and_then(|addressed_value| self.extract_addressed_value(addressed_value, anchor));
+        self.typing_values.pop();
+        res
     }
 
     fn get_addressed_qualified_value_from_entity_name(
@@ -2670,7 +2702,14 @@ impl<'a, R: FileManager> FrontendCtx<'a, R> {
                 self.do_indexed_access_on_types(&base_ty, &key_ty, anchor)
             }
             AddressedQualifiedValue::ExprDecl(ts_type, bff_file_name) => {
-                let base_ty = self.extract_type(ts_type, bff_file_name.clone())?;
+                let key = (Rc::as_ptr(ts_type) as usize, false);
+                if self.typing_exprs.contains(&key) {
+                    return self.error(anchor, DiagnosticInfoMessage::CannotConvertExpr);
+                }
+                self.typing_exprs.push(key);
+                let base_ty = self.extract_type(ts_type, bff_file_name.clone());
+                self.typing_exprs.pop();
+                let base_ty = base_ty?;
                 let key_ty = Runtype::single_string_const(member);
                 self.do_indexed_access_on_types(&base_ty, &key_ty, anchor)
             }
